@@ -1,5 +1,14 @@
-"""Phase execution: each scheduler incarnation runs in a forked child of the
-warmed shard process, so kills are real process deaths (DESIGN §2.4)."""
+"""Phase execution (DESIGN §2.4).
+
+A scheduler incarnation that is to be killed runs in a forked child of the
+warmed shard process, so the kill is a real process death (os._exit). All
+other incarnations run inside the shard process itself: in this sandbox the
+copy-on-write page faults of forked children serialise across processes
+(16 shards forking ran ~13x slower per case than one), while a scheduler
+that stops by itself leaves nothing behind that the next one could see
+(fresh Scheduler object, fresh event loop, per-case HOME; the hooks, the
+virtual clock and the DB shim are re-pointed per incarnation).
+VERIF_E1_FORK=1 forces the fork for every phase."""
 from __future__ import annotations
 
 import asyncio
@@ -62,6 +71,10 @@ def run_phase(case: dict, phase: dict, home: str, monitor_factory,
         os.unlink(phase['result_path'])
     sys.stdout.flush()
     sys.stderr.flush()
+    needs_fork = bool(phase.get('kill_at_stmt') or phase.get('kill_at_iter')
+                      or os.environ.get('VERIF_E1_FORK'))
+    if not needs_fork:
+        return _run_inproc(case, phase, home, monitor_factory)
     pid = os.fork()
     if pid == 0:
         code = 70
@@ -116,6 +129,44 @@ def run_phase(case: dict, phase: dict, home: str, monitor_factory,
     return res
 
 
+def _run_inproc(case, phase, home, monitor_factory) -> dict:
+    """Run one incarnation inside this process (no kill requested)."""
+    n = phase['index']
+    cwd = os.getcwd()
+    env_home = os.environ.get('HOME')
+    import logging
+    from cylc.flow import LOG
+    hooks.install()
+    handlers = list(LOG.handlers)
+    crashed = None
+    try:
+        _child(case, phase, home, monitor_factory)
+    except SystemExit as exc:
+        crashed = f'SystemExit {exc.code}'
+    except Exception:
+        crashed = traceback.format_exc()[-3000:]
+    finally:
+        os.chdir(cwd)
+        if env_home is not None:
+            os.environ['HOME'] = env_home
+        for h in list(LOG.handlers):
+            if h not in handlers:
+                LOG.removeHandler(h)
+                if isinstance(h, logging.FileHandler):
+                    h.close()
+    if os.path.exists(phase['result_path']):
+        with open(phase['result_path']) as f:
+            res = json.load(f)
+    else:
+        res = {'crashed': crashed or 'no result'}
+    res['exit'] = 0
+    res['inproc'] = True
+    return res
+
+
+_PRISTINE = {}
+
+
 def _child(case, phase, home, monitor_factory):
     os.environ['HOME'] = home
     os.environ['CYLC_RUN_DIR'] = ''
@@ -131,9 +182,10 @@ def _child(case, phase, home, monitor_factory):
     # the user's home moved: drop caches that remember paths
     globalcfg.GlobalConfig._DEFAULT = None
 
+    import logging
+    from cylc.flow import LOG
+    LOG.setLevel(logging.INFO)   # the production default (log observers)
     if os.environ.get('VERIF_E1_LOG'):
-        import logging
-        from cylc.flow import LOG
         h = logging.FileHandler(os.path.join(
             home, f'sched-{phase["index"]}.log'))
         h.setFormatter(logging.Formatter('%(levelname)s %(message)s'))
@@ -207,7 +259,7 @@ def _child(case, phase, home, monitor_factory):
         return schd
 
     # record the shutdown reason
-    orig_shutdown = S.Scheduler._shutdown
+    orig_shutdown = _PRISTINE.setdefault('_shutdown', S.Scheduler._shutdown)
 
     async def _shutdown(self, reason):
         drv.stop_reason = f'{type(reason).__name__}: {reason}'
